@@ -12,6 +12,10 @@ use std::collections::{BTreeMap, BTreeSet};
 pub struct Histories {
     pub n: u64,
     pub max_steps: usize,
+    /// None: the full C15 comparison with a fresh server. Some(property): only the server-independent oracle
+    /// (every located error is published for the module it lives in, with the range of its span), run on behalf
+    /// of that property's check.
+    pub located_only: Option<&'static str>,
 }
 
 const FILES: [&str; 4] = ["main.oal", "a.oal", "lib/b.oal", "c.oal"];
@@ -24,6 +28,7 @@ fn variants(file: usize) -> Vec<&'static str> {
             "use \"lib/b.oal\";\nlet m = { 'y w };\nres / on get -> m;\n",
             "use \"a.oal\" as a;\r\nlet m = { 'x a.v };\r\nres /m on get -> m;\r\n",
             "let m = {};\nres / on get -> m;\n",
+            "\u{feff}let m = { 'x nope };\nres / on get -> m;\n",
             "use \"a.oal\" as a;\nlet m = { 'x a.v } | num;\nres / on get -> m;\n",
             "use \"a.oal\" as a;\nlet m = { 'x a.nope };\nres / on get -> m;\n",
             "use \"a.oal\" as a;\nlet m = { 'x a.v ;\nres / on get -> m;\n",
@@ -44,6 +49,7 @@ fn variants(file: usize) -> Vec<&'static str> {
             "let w = num `minimum: 0`;\n/* 😉😉 */\n",
             "let w = <> ~ num;\n",
             "let w = ;\n",
+            "\u{feff}let w = num;\n",
         ],
         _ => vec![
             "let u = str;\n",
@@ -268,7 +274,8 @@ fn write_disk(dir: &std::path::Path, disk: &[usize]) {
     std::fs::write(dir.join("oal.toml"), "[api]\nmain = \"main.oal\"\ntarget = \"out.yaml\"\n").unwrap();
 }
 
-fn run_history(disk: &[usize], steps: &[Step], st: &mut Stats) -> Vec<Violation> {
+fn run_history(disk: &[usize], steps: &[Step], located_only: Option<&'static str>, st: &mut Stats) -> Vec<Violation> {
+    let prop = located_only.unwrap_or("C15");
     let dir = TempDir::new("c15");
     write_disk(&dir.path, disk);
     let uris: Vec<String> = FILES.iter().map(|n| file_uri(&dir.path.join(n))).collect();
@@ -285,7 +292,7 @@ fn run_history(disk: &[usize], steps: &[Step], st: &mut Stats) -> Vec<Violation>
         };
         vec![Violation::new(
             "the language server died or stopped answering during an edit history",
-            json!({"signature": format!("C15 server-{kind} on {what}"), "step": step, "error": crate::util::clip(&format!("{e:?}"), 600)}),
+            json!({"signature": format!("{prop} server-{kind} on {what}"), "step": step, "error": crate::util::clip(&format!("{e:?}"), 600)}),
         )]
     };
     let mut lsp = match Lsp::start(&dir.path, None) {
@@ -374,9 +381,12 @@ fn run_history(disk: &[usize], steps: &[Step], st: &mut Stats) -> Vec<Violation>
                     if let Some((class, detail)) = super::common::check_error_published(&lsp.diags, &uri_of, &text_of, &exp) {
                         return vec![Violation::new(
                             "the diagnostics published for the current texts do not locate the error where the compiler does",
-                            json!({"signature": format!("C15 {class}"), "step": i, "detail": detail}),
+                            json!({"signature": format!("{prop} {class}"), "step": i, "detail": detail}),
                         )];
                     }
+                }
+                if located_only.is_some() {
+                    continue;
                 }
                 // fresh server handed the client's final texts of the still-open documents
                 let mut fresh = match Lsp::start(&dir.path, None) {
@@ -448,7 +458,7 @@ impl Workload for Histories {
         let (disk, steps) = gen_history(&mut rng, self.max_steps);
         st.nontrivial(hash64(&format!("{disk:?}{steps:?}")));
         st.sample(|| json!({"disk_variants": disk, "steps": steps.iter().map(|s| crate::util::clip(&format!("{s:?}"), 120)).collect::<Vec<_>>()}));
-        run_history(&disk, &steps, st)
+        run_history(&disk, &steps, self.located_only, st)
     }
     fn run_json(&self, case: &Value, st: &mut Stats) -> Vec<Violation> {
         let seed = case["seed"].as_u64().unwrap_or(1);
@@ -456,7 +466,7 @@ impl Workload for Histories {
         let ms = case["max_steps"].as_u64().unwrap_or(25) as usize;
         let mut rng = Rng::for_case(seed, "c15", idx);
         let (disk, steps) = gen_history(&mut rng, ms);
-        run_history(&disk, &steps, st)
+        run_history(&disk, &steps, self.located_only, st)
     }
     fn chunk(&self) -> u64 {
         2
@@ -471,6 +481,7 @@ pub fn run(ctx: &Ctx) -> i32 {
     let wl = Histories {
         n: if ctx.quick() { 1000 } else { 20_000 },
         max_steps: if ctx.quick() { 25 } else { 60 },
+        located_only: None,
     };
     acc.pool(&wl, "c15", true);
     if acc.stats.get("checkpoints_compared") == 0 {
@@ -481,10 +492,10 @@ pub fn run(ctx: &Ctx) -> i32 {
     }
     acc.finish(
         "exploration",
-        "protocol-valid histories over a 4-file workspace (main importing two modules, one unrelated file; text variants valid and with lexical/syntax/type/resolution errors, multi-byte characters, CRLF): didOpen with disk or unsaved text, didChange with 1-3 full or incremental changes at arbitrary valid UTF-16 ranges (end-of-file insertions, multi-byte and CRLF snippets), didClose, requests, bursts of notifications without requests; at checkpoints the real server's last published diagnostics per URI and its answers to definition/references/prepareRename/rename probes at identifier starts of every file are compared with a fresh server that is only handed didOpen with the client's final texts (client texts from an independent UTF-16 model); liveness after every message; synchronisation by request/response order, no timing; non-trivial = every history; distinct by content",
+        "protocol-valid histories over a 4-file workspace (main importing two modules, one unrelated file; text variants valid and with lexical/syntax/type/resolution errors, multi-byte characters, CRLF): didOpen with disk or unsaved text, didChange with 1-3 full or incremental changes at arbitrary valid UTF-16 ranges (end-of-file insertions, multi-byte and CRLF snippets), didClose, requests, bursts of notifications without requests; at checkpoints the real server's last published diagnostics per URI and its answers to definition/references/prepareRename/rename probes at identifier starts of every file are compared with a fresh server that is only handed didOpen with the client's final texts (client texts from an independent UTF-16 model); independently of any server, the error the library pipeline locates in the current texts must be among the diagnostics published for the document of its module, with exactly the range of its span in the client's text; edits include replacements of equal UTF-8 length that move lines / UTF-16 columns, texts with a leading U+FEFF, deletion of a closed file; liveness after every message; synchronisation by request/response order, no timing; non-trivial = every history; distinct by content",
         if ctx.quick() { 50 } else { 1000 },
         false,
-        &["files on disk do not change during a history", "the 1 s idle refresh only changes how often the server refreshes"],
+        &["files on disk do not change during a history, except that a file which is not open may be deleted (the server is notified of something right after)", "the 1 s idle refresh only changes how often the server refreshes"],
         json!({}),
     )
 }
